@@ -89,7 +89,9 @@ def rule_track(ctx):
     # R2
     pi = m.func('GroundTrack.Point.__post_init__')
     sts = [st for t, st, how in stores_to(pi.node) if norm(t) == 'self.azimuth']
-    ok = len(sts) == 1 and norm(sts[0].value) in ('self.azimuth % 360.0', 'self.azimuth % 360')
+    ok = len(sts) == 1 and (norm(sts[0].value) in ('self.azimuth % 360.0', 'self.azimuth % 360') or
+                            (isinstance(sts[0], ast.AugAssign) and isinstance(sts[0].op, ast.Mod)
+                             and norm(sts[0].value) in ('360.0', '360')))
     ctx.ob('C15-R2', pi, 'azimuth normalised to [0, 360)', ok,
            norm(sts[0]) if ok else 'Point no longer normalises azimuths with % 360', nontrivial=True)
     for qn in ('GroundTrack.location', 'GroundTrack._overstep', 'GroundTrack.__getitem__', 'GroundTrack.step'):
